@@ -116,10 +116,11 @@ func c09OutOfRange(repo *BlockRepository, r *c09Ref, ctx context.Context, when s
 }
 
 func c09RevertTargets(tip, per int) []int {
-	cands := []int{0, 1, per - 2, per - 1, per, per + 1, 2*per - 1, 2 * per, 2*per + 1, tip - 1, tip}
+	// valid targets around the file boundaries, plus the two invalid neighbours of the range
+	cands := []int{-1, 0, 1, per - 2, per - 1, per, per + 1, 2*per - 1, 2 * per, 2*per + 1, tip - 1, tip, tip + 1}
 	var out []int
 	for _, c := range cands {
-		if c < 0 || c > tip {
+		if c < -1 || c > tip+1 {
 			continue
 		}
 		dup := false
@@ -155,15 +156,36 @@ func VerifHarness_C09_ops() {
 	ref.hashes = append(ref.hashes, *g.BlockHash())
 	adds := []int{1, per - 1, per, per + 1}
 	steps := []string{"s0", "s1", "s2", "s3", "s4"}
+	dirty := false // the chain differs from what the last Save wrote
 	for s := 0; s < nOps; s++ {
-		nAlt := 4
+		nAlt := 5
 		if s == 0 {
 			nAlt = 1
 		}
 		switch verifrt.Choose(steps[s]+".op", nAlt) {
+		case 4:
+			// Load on the SAME repository object, in the two situations where the outcome is not a
+			// matter of interpretation: nothing has changed since the last save (no-op), or nothing
+			// was ever written (the chain is the genesis block again)
+			empty := len(store.ents) == 0
+			verifrt.Assume(empty || !dirty)
+			err := repo.Load(ctx)
+			verifrt.Sig("Load", "same-object")
+			verifrt.Assert(err == nil, "C09.load.same-object-no-error")
+			if empty {
+				ref.removed = append(ref.removed, ref.hashes[1:]...)
+				ref.headers = ref.headers[:1]
+				ref.hashes = ref.hashes[:1]
+			} else {
+				ref.removed = nil
+			}
+			dirty = false
+			verifrt.Reach("C09.loaded-same-object")
+			c09Sweep(repo, ref, ctx, "after-load-same-object")
 		case 0:
 			k := adds[verifrt.Choose(steps[s]+".count", len(adds))]
 			ref.add(repo, ctx, k)
+			dirty = true
 			c09Sweep(repo, ref, ctx, "after-add")
 		case 1:
 			ts := c09RevertTargets(ref.tip(), per)
@@ -173,6 +195,20 @@ func VerifHarness_C09_ops() {
 			verifrt.Note("Revert(%d) at tip %d: panic=%v %s err=%v", t, ref.tip(), panicked, what, err)
 			verifrt.Sig("Revert", "panic")
 			verifrt.Assert(!panicked, "C09.revert.no-panic")
+			if t < 0 || t > ref.tip() {
+				// not a height of the chain: refused, and (like every failed revert) nothing changes
+				verifrt.Sig("Revert", "invalid-target")
+				verifrt.Assert(err != nil, "C09.revert.invalid-target-is-refused")
+				verifrt.Reach("C09.revert.invalid-target")
+				c09Sweep(repo, ref, ctx, "after-refused-revert")
+				if err != nil {
+					shadow := NewBlockRepository(cfg, store.clone())
+					serr := shadow.Load(ctx)
+					verifrt.Sig("Revert", "image-after-refusal")
+					verifrt.Assert(serr == nil && shadow.LastHeight() <= ref.tip(), "C09.revert.refused-revert-leaves-a-loadable-image")
+				}
+				continue
+			}
 			// without storage faults a revert to a height of the chain succeeds
 			verifrt.Sig("Revert", "err")
 			verifrt.Assert(err == nil, "C09.revert.valid-target-succeeds")
@@ -185,6 +221,7 @@ func VerifHarness_C09_ops() {
 				ref.headers = ref.headers[:t+1]
 				ref.hashes = ref.hashes[:t+1]
 				verifrt.Reach("C09.revert.ok")
+				dirty = true
 				c09Sweep(repo, ref, ctx, "after-revert")
 				// the files a revert leaves behind load to the same chain (no stale or missing file)
 				shadow := NewBlockRepository(cfg, store.clone())
@@ -202,6 +239,7 @@ func VerifHarness_C09_ops() {
 			err := repo.Save(ctx)
 			verifrt.Sig("Save", "err")
 			verifrt.Assert(err == nil, "C09.save.no-error")
+			dirty = false
 			c09Sweep(repo, ref, ctx, "after-save")
 		case 3:
 			// save, then load into a fresh repository: must reproduce the chain
@@ -213,6 +251,7 @@ func VerifHarness_C09_ops() {
 			verifrt.Sig("Load", "err")
 			verifrt.Assert(err == nil, "C09.reload.no-error")
 			ref.removed = nil // a reloaded store legitimately knows nothing about them either way
+			dirty = false
 			verifrt.Reach("C09.reloaded")
 			c09Sweep(repo, ref, ctx, "after-reload")
 		}
